@@ -2,7 +2,7 @@
   C09 — local-Clifford equivalence of graph states is decided correctly, constructively.
 
   Property theorems only (helper lemmas live in Proofs/GraphOps.lean, Proofs/LC.lean, Proofs/LCSeq{Step,Loop,Term}.lean and
-  Proofs/LC{Comp,Block,Repair,Assemble}.lean, Proofs/LCTotal{Ech,Cols,Inv,Basis,R}.lean, Proofs/LCTotal.lean, Proofs/LCGates{,2}.lean).
+  Proofs/LC{Comp,Block,Repair,Assemble}.lean, Proofs/LCTotal{Ech,Cols,Inv,Basis,R}.lean, Proofs/LCTotal.lean, Proofs/LCGates{,2}.lean, Proofs/LCTableaux.lean).
 
   What is proved here for every size n and every input (Tier A of DESIGN §4):
     1. local complementation toggles exactly the pairs of distinct neighbours and is an involution; both implementations
@@ -46,6 +46,9 @@
        `K_k(B)` with the image of `K_i(A)` is equation `(i, k)`; maximality of the group), `groupSign` finds every sign, the `Z`
        corrections fix them, and the validation of `lc_check` passes: `lc_check` is total, agrees with `is_lc_equivalent`, and
        its gates map `|A⟩` exactly onto `|B⟩` with or without `validate` (`lc_check_total_and_right`).
+   11. Tableau inputs (section 8; Proofs/LCTableaux.lean): `lc_check` on two stabilizer states, modelled function by function
+       (`lcCheckStates`), returns a total gate list `gates1 + gate_list + inversed_gates2` that maps the first state exactly onto
+       the second (`lc_check_on_tableaux_sound`) — composition of C08's `state_to_graph` soundness with item 10.
   `isLcEquivalent` is the model of `is_lc_equivalent` while the repository is unrepaired and of `_is_lc_equivalent_component`
   afterwards; sections 2–4 are about it in both readings.
 -/
@@ -763,7 +766,7 @@ theorem lc_check_2K2_repaired : checkAnswerR twoK2 twoK2 = some (true, [("H", 0)
 /-! ## 6. Totality: `is_lc_equivalent` returns (no internal assertion can fire)
 
   Every decision theorem above has a hypothesis `… = .ok out` ("the function returned").  It is discharged here for every
-  input of the property's quantifier (helper lemmas: Proofs/LCTotal{Ech,Cols,Inv,Basis,R}.lean, Proofs/LCTotal.lean, Proofs/LCGates{,2}.lean). -/
+  input of the property's quantifier (helper lemmas: Proofs/LCTotal{Ech,Cols,Inv,Basis,R}.lean, Proofs/LCTotal.lean, Proofs/LCGates{,2}.lean, Proofs/LCTableaux.lean). -/
 
 /-- **the whole-graph algorithm (`is_lc_equivalent` before the repair of D14, `_is_lc_equivalent_component` after it) is
     total**: for two adjacency matrices of the same size `n ≥ 1`, in deterministic or random mode and for every value of the
